@@ -41,8 +41,19 @@ SPEC = {
         "ReadLinkFS, so TestFS insists on opening every listed entry)",
     ],
     "harness_timeout": 3000,
+    "search_rounds": 1,   # one widened (thorough-tier) sweep when a proof/correspondence breaks without an oracle hit
 }
 
 MUTATIONS = """
-(filled in after the dry-runs)
+Dry-runs on scratch copies (VERIF_REPO=/var/tmp/mC29_*; ./check C29 quick, inbox findings loaded):
+M1 info.go newFileInfo: size: f.Digest.SizeBytes -> 0            exit 1: 24 disagreements, `stat-differs-from-tree` (c/c: real size 7, view 0)
+M2 findNode: range wd.Files -> wd.Files[min(1,len):] (skips the first file)
+                                                                 exit 1: extractor reports the loop unreadable -> Expected facts + thorough tier;
+                                                                 22 disagreements, `stat-misses-existing-entry`, `read-fails-on-readable-file`,
+                                                                 `testfs-listed-entry-cannot-be-opened`, each with a concrete path
+M3 open: `if filepath.IsAbs(…)` -> `if false && filepath.IsAbs(…)`  exit 1 (correspondence: abslink vs notexist; the view still fails cleanly, so
+                                                                 no oracle hit: `no-failing-input-found`) — see the note in the final report
+M4 dir.ReadDir: len(ret) == n -> len(ret) == n-1                 exit 1: 21 disagreements, no new oracle class (paging is already a known
+                                                                 finding): `correspondence-broken … no-failing-input-found`
+H1 harmless: rename `rest` -> `remainder` in fs.go               exit 0 (0 disagreements, facts regenerated identically)
 """
